@@ -522,7 +522,7 @@ func (c *converter) Input(prompt string, valueUsed bool) (string, error) {
 	if len(prompt) > 0 {
 		prompt = fmt.Sprintf(" -p \"%s\"", prompt)
 	}
-	c.addLine(fmt.Sprintf("IFS= read -r%s %s", prompt, helper)) // Keep leading/trailing whitespaces and backslashes of the input.
+	c.addLine(fmt.Sprintf("IFS= read -r%s %s", prompt, c.varName(helper, false))) // Keep leading/trailing whitespaces and backslashes of the input.
 	return c.VarEvaluation(helper, valueUsed, false)
 }
 
